@@ -17,6 +17,9 @@ import (
 func (v *Validator) typeOfExpr(env *requestEnv, expr ast.IsNode, caps capabilitySet) (cedarType, capabilitySet, error) {
 	switch n := expr.(type) {
 	case ast.NodeValue:
+		if lit, ok := literalToExpr(n.Value); ok {
+			return v.typeOfExpr(env, lit, caps)
+		}
 		ty, err := v.typeOfValue(n.Value)
 		return ty, caps, err
 
@@ -112,6 +115,39 @@ func (v *Validator) typeOfExpr(env *requestEnv, expr ast.IsNode, caps capability
 	return v.typeOfExtensionCall(env, expr.(ast.NodeTypeExtensionCall), caps)
 }
 
+// literalToExpr rewrites a set, record or extension value carried as a literal (which JSON-decoded and
+// programmatically built policies can do; the text syntax cannot) into the expression the text syntax uses for it, so
+// that it is typed like that expression.
+func literalToExpr(val types.Value) (ast.IsNode, bool) {
+	str := func(s string) []ast.IsNode { return []ast.IsNode{ast.NodeValue{Value: types.String(s)}} }
+	switch val := val.(type) {
+	case types.Set:
+		elems := make([]ast.IsNode, 0, val.Len())
+		for e := range val.All() {
+			elems = append(elems, ast.NodeValue{Value: e})
+		}
+		return ast.NodeTypeSet{Elements: elems}, true
+	case types.Record:
+		keys := slices.Sorted(val.Keys())
+		elems := make([]ast.RecordElementNode, 0, len(keys))
+		for _, k := range keys {
+			e, _ := val.Get(k)
+			elems = append(elems, ast.RecordElementNode{Key: k, Value: ast.NodeValue{Value: e}})
+		}
+		return ast.NodeTypeRecord{Elements: elems}, true
+	case types.Decimal:
+		return ast.NodeTypeExtensionCall{Name: "decimal", Args: str(val.String())}, true
+	case types.IPAddr:
+		return ast.NodeTypeExtensionCall{Name: "ip", Args: str(val.String())}, true
+	case types.Datetime:
+		return ast.NodeTypeExtensionCall{Name: "datetime", Args: str(val.String())}, true
+	case types.Duration:
+		return ast.NodeTypeExtensionCall{Name: "duration", Args: str(val.String())}, true
+	case types.Boolean, types.Long, types.String, types.EntityUID:
+	}
+	return nil, false
+}
+
 func (v *Validator) typeOfValue(val types.Value) (cedarType, error) {
 	switch val := val.(type) {
 	case types.Boolean:
@@ -124,8 +160,11 @@ func (v *Validator) typeOfValue(val types.Value) (cedarType, error) {
 	case types.String:
 		return typeString{}, nil
 	case types.EntityUID:
+		return v.typeOfEntityUID(val)
+	case types.Set, types.Record, types.Decimal, types.IPAddr, types.Datetime, types.Duration:
+		// typed through literalToExpr by typeOfExpr
 	}
-	return v.typeOfEntityUID(val.(types.EntityUID))
+	return nil, fmt.Errorf("unexpected literal of type %T", val)
 }
 
 func (v *Validator) typeOfEntityUID(uid types.EntityUID) (cedarType, error) {
